@@ -339,6 +339,10 @@ func gen(repo string) (map[string]string, error) {
 	if err != nil {
 		return nil, err
 	}
+	// Shapes of the HTTP handlers (api.go) the model depends on only through Boolean facts are reported softly: the
+	// fact becomes false and the message goes to `shapeErrors` (pinned to [] by Props.C11.fact_api_shape), so the
+	// proof obligation breaks but the driver still builds and the monitors can look for a concrete failing input.
+	var shapeErrs []string
 	var b strings.Builder
 	b.WriteString(fg.Header("key codec constants, formats, case tables; paging arithmetic; API list/release shape (C11)",
 		utilsGo, pageGo, apiGo, bindGo))
@@ -570,7 +574,7 @@ func gen(repo string) (map[string]string, error) {
 	}
 	src = norm(ap.Src(fd.Body))
 	if !strings.Contains(src, "keyObj := util.ParseKey(fip.Key)") {
-		return nil, fmt.Errorf("%s: convert no longer parses fip.Key with util.ParseKey", apiGo)
+		shapeErrs = append(shapeErrs, fmt.Sprintf("%s: convert no longer parses fip.Key with util.ParseKey", apiGo))
 	}
 	var conv [][2]string
 	ast.Inspect(fd.Body, func(n ast.Node) bool {
@@ -600,11 +604,16 @@ func gen(repo string) (map[string]string, error) {
 	// --- api.go: ReleaseIPs / ListIPs appType default
 	rel, relArgs, err := appTypeDefault(ap, "ReleaseIPs", "temp.AppType", "temp.")
 	if err != nil {
-		return nil, err
+		shapeErrs = append(shapeErrs, err.Error())
+		rel, relArgs = false, nil
+	}
+	if err := releaseLoopsShape(ap); err != nil {
+		shapeErrs = append(shapeErrs, err.Error())
 	}
 	lst, lstArgs, err := appTypeDefault(ap, "ListIPs", "appType", "")
 	if err != nil {
-		return nil, err
+		shapeErrs = append(shapeErrs, err.Error())
+		lst, lstArgs = false, nil
 	}
 	b.WriteString("/-- ReleaseIPs: `if temp.AppType == \"\" { prefix = sts } else { prefix = GetAppTypePrefix(temp.AppType) }` —\n    true iff the statefulset default survives (the GetAppTypePrefix assignment is in the else branch) -/\n")
 	b.WriteString("def releaseDefaultsToSts : Bool := " + fg.LeanBool(rel) + "\n")
@@ -775,9 +784,11 @@ func gen(repo string) (map[string]string, error) {
 	for _, need := range []string{"sortParam, page, size := pageutil.PagingParams(req)",
 		"start, end, pagin := pageutil.Pagination(page, size, len(fips))", "pagedFips := fips[start:end]"} {
 		if !strings.Contains(src, need) {
-			return nil, fmt.Errorf("%s: ListIPs no longer contains `%s`", apiGo, need)
+			shapeErrs = append(shapeErrs, fmt.Sprintf("%s: ListIPs no longer contains `%s`", apiGo, need))
 		}
 	}
+	b.WriteString("\n/-- handler shapes this translator no longer recognises (must be empty) -/\n")
+	b.WriteString("def shapeErrors : List String := " + strList(shapeErrs) + "\n")
 	b.WriteString("\nend Galaxy.Generated.Keys\n")
 	return map[string]string{"Keys.lean": b.String()}, nil
 }
@@ -1034,4 +1045,27 @@ func appTypeDefault(p *fg.Parsed, fn, x, strip string) (bool, []string, error) {
 		return false, nil, fmt.Errorf("%s: %s no longer builds the key with util.NewKeyObj", apiGo, fn)
 	}
 	return inElse && !overwritten, args, nil
+}
+
+// releaseLoopsShape checks the two loops of ReleaseIPs the model's `releaseRequest` transcribes: every entry of the
+// request is copied (`temp := releaseIPReq.IPs[i]`), a fresh KeyObj / ReleaseRequest is APPENDED per releasable entry,
+// and the second loop calls c.releaseFunc for every collected request.
+func releaseLoopsShape(p *fg.Parsed) error {
+	fd, err := p.Fn("Controller", "ReleaseIPs")
+	if err != nil {
+		return err
+	}
+	src := norm(p.Src(fd.Body))
+	for _, need := range []string{
+		"for i := range releaseIPReq.IPs { temp := releaseIPReq.IPs[i]",
+		"keyObj := util.NewKeyObj(appTypePrefix, temp.Namespace, temp.AppName, temp.PodName, temp.PoolName) unbindRequests = append(unbindRequests, &schedulerplugin.ReleaseRequest{IP: ip, KeyObj: keyObj})",
+		"for _, req := range unbindRequests { if err := c.releaseFunc(req); err != nil { unreleasedIP = append(unreleasedIP, req.IP.String())",
+		"releasable, status := c.checkReleasableAndStatus(&temp) if !releasable { unreleasedIP = append(unreleasedIP, temp.IP)",
+		"res.Unreleased = unreleasedIP",
+	} {
+		if !strings.Contains(src, need) {
+			return fmt.Errorf("%s: ReleaseIPs no longer contains `%s`", apiGo, need)
+		}
+	}
+	return nil
 }
